@@ -704,17 +704,25 @@ func (r *Runner) solveOne(o *Obligation) {
 			// get the model with a dedicated run
 			mfile := strings.TrimSuffix(file, ".smt2") + "__model.smt2"
 			os.WriteFile(mfile, []byte(o.smtText(q, true)), 0o644)
+			// ask the plain configuration of the solver family that answered sat (then any other) for the model
+			base := strings.SplitN(res.solver, "/", 2)[0]
+			var order []solverSpec
 			for _, sp := range solvers {
-				if sp.name != res.solver {
-					continue
+				if sp.name == base {
+					order = append(order, sp)
 				}
-				if strings.Contains(sp.name, "/") {
-					continue
+			}
+			for _, sp := range solvers {
+				if sp.name != base && !strings.Contains(sp.name, "/") {
+					order = append(order, sp)
 				}
-				mr := runSolver(context.Background(), sp, mfile, r.Timeout)
+			}
+			for _, sp := range order {
+				mr := runSolver(context.Background(), sp, mfile, min(r.Timeout, 10))
 				if mr.verdict == "sat" {
 					o.Model = mr.out
 					o.ModelFor = qi
+					break
 				}
 			}
 		}
